@@ -106,7 +106,7 @@ def gen_op(rng, repo, explicit, pfault=0.25):
         return "P %d %s %s" % (i, flt, gen_sel(rng, repo.entries[i]["feats"]))
     if r < 0.62:
         nm = rng.choice(repo.names + (["h"] if rng.random() < 0.05 else []))
-        rv = rng.choice([0, 0] + repo.revs.get(nm, [1]))
+        rv = rng.choice([0, 0] + repo.revs.get(nm, [1]) + ([rng.choice([1, 2, 3])] if rng.random() < 0.3 else []))
         return "L %s %d %s" % (nm, rv, gen_sel(rng, repo.feats.get(nm, [])))
     if r < 0.9 or not explicit:
         nm = rng.choice(repo.names)
@@ -435,6 +435,10 @@ def rich_repo(rng):
                 extras.append("a%d" % k)
             if rng.random() < 0.2:
                 extras.append("v%d" % k)
+            if rng.random() < 0.25:
+                extras.append("r%d" % k)
+            if rng.random() < 0.25:
+                extras.append("w%d" % k)
         ents.append(dict(name=nm, imps=imps, extras=extras, feats=gen_feats(rng) if rng.random() < 0.5 else [], fault=0))
     # augments into the node another import adds to a third module
     for e in ents:
@@ -463,8 +467,13 @@ def rich_repo_str(ents):
     return ";".join(out)
 
 
-def gen_rich_script(rng):
+RICH_FLAGS = [0, 0, 0, 2, 4, 6, 8, 10, 1, 1, 3, 5, 7]      # 1 explicit compile, 2 enable imp features, 4 ref implemented, 8 all implemented
+
+
+def gen_rich_script(rng, flags=None):
     ents = rich_repo(rng)
+    if flags is None:
+        flags = rng.choice(RICH_FLAGS)
     ops = []
     for _ in range(rng.randrange(3, 9)):
         r = rng.random()
@@ -481,7 +490,11 @@ def gen_rich_script(rng):
         if r < 0.65 and e["imps"] and rng.random() < 0.6:
             for t in rng.sample(e["imps"], rng.randrange(1, len(e["imps"]) + 1)):
                 ops.append("I %s 1 ~" % t)
-    return "\t".join(["ctxr", "0", rich_repo_str(ents)] + ops)
+        if (flags & 1) and rng.random() < 0.35:
+            ops.append("C")                     # several calls stay pending between two compilations
+    if flags & 1:
+        ops.append("C")
+    return "\t".join(["ctxr", str(flags), rich_repo_str(ents)] + ops)
 
 
 def rich_templates(rng):
@@ -495,6 +508,18 @@ def rich_templates(rng):
             repo = "t1:-:-:0:-;x1:t1:-:0:%s;p1:t1,x1:-:0:-;m1:t1,x1:-:%d:%s" % (link, fault, mex)
             for later in (["I t 1 ~"], ["I x 1 ~"], ["I t 1 ~", "I x 1 ~"], ["P 3 0 ~"]):
                 out.append("\t".join(["ctxr", "0", repo, "P 2 - ~", "P 3 - ~"] + later))
+    # modules implemented as a side effect (augment / deviation target, leafref, must) while LY_CTX_ENABLE_IMP_FEATURES (and
+    # REF_IMPLEMENTED) is set: their features must be what they were after the failure
+    for fl in (2, 6, 10):
+        for ex in ("a0", "v0", "r0", "w0", "a0,r0"):
+            repo = "t1:-:f1,f2:0:-;p1:t1:-:0:-;m1:t1:-:4:%s" % ex
+            out.append("\t".join(["ctxr", str(fl), repo, "P 1 - ~", "P 2 - ~", "I t 1 ~"]))
+    # explicit compilation with several pending dependency sets; the failing one is compiled first / last
+    for order in (("P 1 - ~", "P 2 - ~"), ("P 2 - ~", "P 1 - ~")):
+        for ex, fy in (("a0", 4), ("v0", 4), ("a0,d0", 3), ("r0", 4)):
+            repo = "t1:-:f1:0:-;x1:t1:-:0:%s;y1:-:-:%d:-" % (ex, fy)
+            out.append("\t".join(["ctxr", "1", repo, "P 0 - ~", "C"] + list(order) + ["C", "C", "P 1 - ~", "C"]))
+            out.append("\t".join(["ctxr", "1", repo, "P 0 - ~", "C", "I t 1 f1"] + list(order) + ["C", "C"]))
     for gimps, gex in (("-", "sb"), ("-", "sb,s b".replace(" ", "")[:2]), ("c1", "sb,d0"), ("b1", "d0")):
         for fault in (2, 3, 4):
             # g (no import of its own / with imports) derives identities from b through its submodule or itself; it is rolled back
@@ -522,13 +547,18 @@ class CtxRich:
         return L
 
     def judge(self, line, out):
-        ops = line.split("\t")[3:]
+        fld = line.split("\t")
+        flags, ops = int(fld[1]), fld[3:]
+        explicit = bool(flags & 1)
         if out.startswith("CRASH(") or out == "TIMEOUT":
             return (None, "the script ends with %s %s" % (out, (self.last_err or "")[-300:]))
         segs = out.split(" | ")
         if out.startswith("?") or len(segs) != len(ops):
             return (None, "driver protocol: %s" % out[:100])
         prev = None
+        empty = ";L:--------;M:--------"
+        last_compiled = empty            # explicit compilation: the observable after the last successful ly_ctx_compile()
+        diverged = False                 # explicit compilation: a failed call threw pending calls away, the shadow context kept them
         for i, (op, sg) in enumerate(zip(ops, segs)):
             if sg.startswith("?"):
                 return (None, "driver protocol: %s" % sg)
@@ -537,11 +567,32 @@ class CtxRich:
                 return (None, "op %d (%s): malformed observable %r" % (i, op, sg[:200]))
             body, sh = sg.rsplit(" S", 1)
             res, obs = body.split(";", 1)
-            if res == "E" and prev is not None and obs != prev:
-                return (None, "op %d (%s) failed and the context is not what it was: before %s after %s" % (i, op, prev, obs))
-            if res == "E" and prev is None and obs.split(";")[0]:
-                return (None, "op %d (%s) failed on the empty context and left %s" % (i, op, obs))
-            if res == "ok" and sh == "!":
-                return (None, "op %d (%s) succeeded but the context differs from one that saw only the successful operations: %s" % (i, op, obs))
+            before = prev if prev is not None else empty
+            # Retired tags (a recurrence is a plain violation): ctx-target-not-compiled (fixed by /repo d873110),
+            # ctx-explicit-compile-partial (c018937), ctx-imp-features-kept (d89c6b6)
+            if res == "E" and "c=!" in obs and "c=!" not in before:
+                return (None, "op %d (%s) failed and left a compiled module with an unresolved leafref: %s" % (i, op, obs))
+            if res == "E":
+                was_pending = explicit and "*{" in before
+                if was_pending and op == "C":
+                    # a failed ly_ctx_compile() throws away everything since the last compilation (by design of the explicit
+                    # mode); what was compiled before must be what it was
+                    diverged = True
+                    if obs != last_compiled:
+                        return (None,
+                                "op %d (C) failed and the context is not what the last compilation left: then %s now %s" % (i, last_compiled, obs))
+                elif obs != before:
+                    if was_pending:
+                        return ("ctx-explicit-revert-pending", "op %d (%s) failed and undid pending calls: before %s after %s" % (i, op, before, obs))
+                    return (None, "op %d (%s) failed and the context is not what it was: before %s after %s" % (i, op, before, obs))
+            elif res == "ok":
+                if (not explicit and "*{" in obs) or "c=!" in obs:
+                    # a successful call left an implemented module that is not compiled: the target of an augment / deviation
+                    # of a module that was implemented on the spot because of a leafref, when or must (lys_compile_expr_implement)
+                    return (None, "op %d (%s) succeeded and left a module implemented but not compiled: %s" % (i, op, obs))
+                if sh == "!" and not diverged:
+                    return (None, "op %d (%s) succeeded but the context differs from one that saw only the successful operations: %s" % (i, op, obs))
+                if op == "C" or not explicit:
+                    last_compiled = obs
             prev = obs
         return None
